@@ -12,3 +12,182 @@ def c08_classify(logic, t, obj):
 
 def c08_classify_mc(logic, t, why, call):
     return None
+
+
+# ==========================================================================
+# C15: fairness.  Executable models of the open findings D4, D5, D6, D7.
+#
+# The fairness code of pyModelChecking reduces a fair query to an
+# unconstrained query over a fresh label 'fair'.  The models below are a
+# transcription, written for /verif, of what that reduction computes at the
+# pinned commit (CTL/language.py and CTLS/language.py
+# get_equivalent_non_fair_formula, CTLS/model_checking.py
+# _checkQuantifiedFormula, kripke.py is_a_fair_SCC).  They are evaluated with
+# the *reference* semantics, so an execution is attributed to a finding only
+# when the real code returned exactly what the documented-but-unsound
+# mechanism yields on that input.
+
+FAIR = ('ap', '\x00fair')
+TRUE = ('bool', True)
+BOOLEAN = ('not', 'or', 'and', 'imply')
+TEMPORAL = ('X', 'F', 'G', 'U', 'R')
+
+
+class ModelTypeError(Exception):
+    """The modelled code path raises TypeError (finding D5)."""
+
+
+def m1_fair_states(K, F, compute_SCCs):
+    """D4: is_a_fair_SCC tests `len(scc) == 1 or v not in next(v)` with v the
+    first node of the SCC as enumerated, i.e. it accepts only SCCs with >= 2
+    nodes whose first-enumerated node has a self-loop (and that meet every
+    constraint); the fair set is their backward closure."""
+    fset = set()
+    for scc in compute_SCCs(K):
+        scc = list(scc)
+        v = scc[0]
+        if len(scc) == 1 or v not in K._next[v]:
+            continue
+        if all(set(scc) & set(P) for P in F):
+            fset.update(scc)
+    # backward closure
+    changed = True
+    while changed:
+        changed = False
+        for s, ds in K._next.items():
+            if s not in fset and (ds & fset):
+                fset.add(s)
+                changed = True
+    return fset
+
+
+def _and_fair(x):
+    return ('and', x, FAIR)
+
+
+def nf_ctl(t, atom=_and_fair):
+    """CTL get_equivalent_non_fair_formula, transcribed."""
+    op = t[0]
+    if op in ('ap', 'bool', 'opq'):
+        return atom(t[1] if op == 'opq' else t)
+    if op in BOOLEAN:
+        return (op,) + tuple(nf_ctl(c, atom) for c in t[1:])
+    g = t[1]
+    gop = g[0]
+    if gop not in TEMPORAL:
+        raise ValueError('not CTL-shaped')
+    sf0 = nf_ctl(g[1], atom)
+
+    def EX(a): return ('E', ('X', a))
+
+    def EG(a): return ('E', ('G', a))
+
+    def EU(a, b): return ('E', ('U', a, b))
+
+    def AND(a, b): return ('and', a, b)
+
+    def NOT(a): return ('not', a)
+    if op == 'A':
+        n0 = NOT(sf0)
+        if gop == 'X':
+            return NOT(EX(AND(n0, FAIR)))
+        if gop == 'F':
+            return NOT(EG(AND(n0, FAIR)))
+        if gop == 'G':
+            return NOT(EU(TRUE, AND(n0, FAIR)))
+        sf1 = nf_ctl(g[2], atom)
+        n1 = NOT(sf1)
+        if gop == 'U':
+            return NOT(('or', EU(n1, AND(NOT(('or', sf0, sf1)), FAIR)),
+                        EG(AND(n1, FAIR))))
+        return NOT(EU(n0, AND(n1, FAIR)))            # R
+    # E
+    if gop == 'X':
+        return EX(AND(sf0, FAIR))
+    if gop == 'F':
+        return EU(TRUE, AND(sf0, FAIR))
+    if gop == 'G':
+        return EG(AND(sf0, FAIR))
+    sf1 = nf_ctl(g[2], atom)
+    if gop == 'U':
+        return EU(sf0, AND(sf1, FAIR))
+    # E(f R g): EU() is called with three arguments -> TypeError (D5)
+    raise ModelTypeError('E R under fairness')
+
+
+def _is_state_level(t):
+    op = t[0]
+    if op in ('ap', 'bool', 'opq', 'A', 'E'):
+        return True
+    if op in TEMPORAL:
+        return False
+    return all(_is_state_level(c) for c in t[1:])
+
+
+def _prop_over_atoms(t):
+    op = t[0]
+    if op in ('ap', 'bool', 'opq'):
+        return True
+    if op in BOOLEAN:
+        return all(_prop_over_atoms(c) for c in t[1:])
+    return False
+
+
+def _generic_nf(t):
+    """CTLS.Formula.get_equivalent_non_fair_formula on a path formula whose
+    quantified subformulas were already replaced: atoms -> atom and fair."""
+    op = t[0]
+    if op in ('ap', 'bool'):
+        return _and_fair(t)
+    if op == 'opq':
+        return _and_fair(t[1])
+    return (op,) + tuple(_generic_nf(c) for c in t[1:])
+
+
+def _replace_quantified(g):
+    """_remove_state_subformulas on g: maximal quantified subformulas become
+    opaque atoms holding the model of their value."""
+    op = g[0]
+    if op in ('ap', 'bool'):
+        return g
+    if op in ('A', 'E'):
+        return ('opq', vq(g))
+    return (op,) + tuple(_replace_quantified(c) for c in g[1:])
+
+
+def vq(t):
+    """Model of CTLS _checkQuantifiedFormula(kripke, Q g, fair_label)."""
+    q, g = t
+    g1 = _replace_quantified(g)
+    if g1[0] in TEMPORAL and all(_prop_over_atoms(c) for c in g1[1:]):
+        # castable to CTL: CTL reduction (may raise ModelTypeError for E R)
+        return nf_ctl((q, g1))
+    sf = _generic_nf(g1)
+    if q == 'A':
+        return ('A', ('not', ('and', ('not', sf), FAIR)))
+    return ('E', ('and', FAIR, sf))
+
+
+def m_ctls(t):
+    """Model of CTLS.modelcheck(K, t, F=...) as one unconstrained CTL* tree
+    over the label FAIR."""
+    op = t[0]
+    if op in ('ap', 'bool'):
+        return _and_fair(t)
+    if op in ('A', 'E'):
+        return _and_fair(vq(t))
+    if op in BOOLEAN:
+        return (op,) + tuple(m_ctls(c) for c in t[1:])
+    raise ValueError('path formula at state level')
+
+
+def m_ctl(t):
+    return nf_ctl(t)
+
+
+def contains(t, pred):
+    if pred(t):
+        return True
+    if t[0] in ('ap', 'bool'):
+        return False
+    return any(contains(c, pred) for c in t[1:])
